@@ -543,6 +543,20 @@ func c14MgrHealthRun(c *c13Case) (fs []Failure) {
 			fs = append(fs, Failure{Sig: sig, Desc: desc})
 		}
 	}
+	createdWith := map[string]c13Ep{} // host -> the registry record listed when its present adapter first appeared
+	note := func() {
+		cur := m.Adapters()
+		for h := range createdWith {
+			if cur[h] == nil {
+				delete(createdWith, h)
+			}
+		}
+		for h := range cur {
+			if _, ok := createdWith[h]; !ok {
+				createdWith[h] = byHost[h]
+			}
+		}
+	}
 	adapterOf := func(h string) *tars.AdapterProxy {
 		for i := 0; i < 4000; i++ {
 			if a := m.Adapters()[h]; a != nil {
@@ -556,12 +570,14 @@ func c14MgrHealthRun(c *c13Case) (fs []Failure) {
 		o := &c.Ops[i]
 		switch o.Op {
 		case "refresh":
+			note() // adapters created so far were created under the previous listing
 			reg.active = nil
 			for _, e := range o.Eps {
 				reg.active = append(reg.active, e.epf())
 				byHost[e.Host] = e
 			}
 			_ = m.Refresh()
+			note() // the refresh closes the adapters of endpoints that are no longer listed
 			var inst []c13Ep // the model and the reference take the list in the order the manager installed it
 			want := map[string]bool{}
 			for _, e := range o.Eps {
@@ -589,6 +605,7 @@ func c14MgrHealthRun(c *c13Case) (fs []Failure) {
 			abs.refresh(inst)
 		case "remove":
 			adp := adapterOf(o.Eps[0].Host)
+			note()
 			if adp == nil {
 				fail("hash-routing/manager/no-adapter", "no adapter was ever handed out for "+o.Eps[0].Host)
 				return fs
@@ -610,9 +627,13 @@ func c14MgrHealthRun(c *c13Case) (fs []Failure) {
 			if adp == nil {
 				return fs
 			}
-			// the endpoint comes back as its adapter holds it (created before a later refresh may have changed its weight)
-			pt := adp.GetPoint()
-			o.Eps[0] = c13Ep{Host: pt.Host, Port: pt.Port, Weight: pt.Weight, WType: pt.WeightType}
+			// the endpoint comes back as the registry listed it when its adapter was created (a later refresh may have changed
+			// its weight: the adapter keeps the old record).  The expectation is that registry record - NOT what the adapter
+			// returns now, which has been through Endpoint2tars / Tars2endpoint, the conversions under test
+			note()
+			if rec, ok := createdWith[o.Eps[0].Host]; ok {
+				o.Eps[0] = rec
+			}
 			m.Reinstate(adp)
 			delete(down, o.Eps[0].Host)
 			o.Ok = strings.Contains(","+active()+",", ","+o.Eps[0].Host+",")
@@ -628,6 +649,7 @@ func c14MgrHealthRun(c *c13Case) (fs []Failure) {
 					h = adp.GetPoint().Host
 				}
 				o.Obs = append(o.Obs, h)
+				note()
 				e, err := ref.Select(c13Msg{code})
 				switch {
 				case h != "" && !abs.has(h):
